@@ -1,10 +1,13 @@
 """C12 - sort_rows emits a stable, correctly ordered permutation.
 
 Spec:   spec/ProcSort.tla: IdealSort (stable, ascending; reverse = exact reverse) next to ImplSort, the design the code
-        implements (key string = rendering + 8 hex digits of the row number, lexicographic order; numbers through an
-        order-preserving encoding of IEEE bits, modelled on a miniature float format).  TLC shows the text design equals
-        the ideal on all 81 400 tables of <= 3 keys of <= 2 characters EXCEPT when one key is a proper prefix of another,
-        and the numeric encoding is order preserving EXCEPT for -0.0.   spec/SortTrace.tla: rank-abstracted real runs.
+        implements (key string built from the rendering and 8 hex digits of the row number, lexicographic order; numbers
+        through an order-preserving encoding of IEEE bits, modelled on a miniature float format).  Three key-string designs
+        are modelled: "concat" (the pinned code: TLC refutes it whenever one key is a proper prefix of another), "nulsep"
+        (a bare NUL separator: refuted by keys containing NUL) and "escsep" (the repaired code: NUL escaped, NUL NUL
+        terminator) for which TextDesignOK holds on all 394 420 tables of <= 3 keys of <= 2 characters over 8 character
+        classes (incl. NUL and SOH).  Numbers: ZeroFix = FALSE (pinned) is refuted for -0.0, ZeroFix = TRUE holds.
+        spec/SortTrace.tla: rank-abstracted real runs.
 Bind:   every exported text table is sorted for real (format string / field list / callable key; reverse; batch sizes);
         numeric tables (ints, floats, Decimals, negatives, fractions, huge magnitudes) are rank-abstracted with exact
         arithmetic and TLC checks permutation, order, stability and exact reversal; thorough adds 12 000 / 30 000 rows.
@@ -20,28 +23,37 @@ from .. import tlc
 from ..common import Report, pmap, harness_errors, rng, setup_repo
 
 PROP = 'C12'
-KF_PREFIX = 'C12-text-key-prefix'
-KF_NEGZERO = 'C12-negative-zero-first'
+KF_PREFIX = 'C12-text-key-prefix'              # repaired (fix: 7821ded): not listed any more, a reappearance is a VIOLATION
+KF_NEGZERO = 'C12-negative-zero-first'         # repaired (fix: 3ca0412): likewise
 KF_BIGINT = 'C12-integers-beyond-2^53-collapse'
-CHARS = {1: '!', 2: '0', 3: '9', 4: 'a', 5: 'f', 6: 'z'}
+CHARS = {1: '!', 2: '0', 3: '9', 4: 'a', 5: 'f', 6: 'z', 7: '\x00', 8: '\x01'}
 
 
 def model(rep, t):
     wd = tlc.workdir('c12')
-    consts = {'MaxRows': 3, 'MaxKeyLen': 2, 'Alphabet': '{1, 2, 3, 4, 5, 6}'}
-    cfg = tlc.write_cfg(os.path.join(wd, 'a.cfg'), constants=consts, invariants=['TextDesignOKUnlessPrefix'], constraints=['Export'])
+    alpha = '{1, 2, 3, 4, 5, 6, 7, 8}'
+    consts = {'MaxRows': 3, 'MaxKeyLen': 2, 'Alphabet': alpha, 'Design': '"escsep"', 'ZeroFix': 'TRUE'}
+    cfg = tlc.write_cfg(os.path.join(wd, 'a.cfg'), constants=consts, invariants=['TextDesignOK'], constraints=['Export'])
     res = tlc.run_tlc('ProcSort', cfg, workers=1, allow_violation=False, timeout=3000)
-    rep.add_tlc(res, 'ProcSort text keys: ImplSort = IdealSort on every table without a proper-prefix pair (<=3 rows, keys <=2 chars over 6 classes)')
+    rep.add_tlc(res, 'ProcSort text keys, Design = escsep (the code): ImplSort = IdealSort on every table (<=3 rows, keys <=2 chars over 8 classes incl. NUL, SOH)')
     cases = res.cases
-    cfg = tlc.write_cfg(os.path.join(wd, 'b.cfg'), constants=consts, invariants=['TextDesignOK'])
-    r2 = tlc.run_tlc('ProcSort', cfg)
-    cfg = tlc.write_cfg(os.path.join(wd, 'c.cfg'), constants={'MaxRows': 0, 'MaxKeyLen': 0, 'Alphabet': '{1}'}, invariants=['NumDesignOKUnlessNegZero'])
+    # the two refuted designs: the pinned concatenation and the bare NUL separator (why the terminator needs the escape)
+    refuted = {}
+    for design in ('concat', 'nulsep'):
+        cfg = tlc.write_cfg(os.path.join(wd, design + '.cfg'), constants=dict(consts, Design='"%s"' % design), invariants=['TextDesignOK'])
+        r2 = tlc.run_tlc('ProcSort', cfg)
+        refuted[design] = bool(r2.violated)
+    num = {'MaxRows': 0, 'MaxKeyLen': 0, 'Alphabet': '{1}', 'Design': '"escsep"'}
+    cfg = tlc.write_cfg(os.path.join(wd, 'c.cfg'), constants=dict(num, ZeroFix='TRUE'), invariants=['NumDesignOK', 'NumDesignZeroOK'])
     r3 = tlc.run_tlc('ProcSort', cfg, allow_violation=False)
-    rep.add_tlc(r3, 'ProcSort miniature IEEE format (32 bit patterns, denormals, two zeros): the key encoding preserves order and equality unless -0.0 is involved')
-    cfg = tlc.write_cfg(os.path.join(wd, 'd.cfg'), constants={'MaxRows': 0, 'MaxKeyLen': 0, 'Alphabet': '{1}'}, invariants=['NumDesignOK'])
+    rep.add_tlc(r3, 'ProcSort miniature IEEE format (32 bit patterns, denormals, two zeros), ZeroFix = TRUE (the code): the key encoding preserves order and equality')
+    cfg = tlc.write_cfg(os.path.join(wd, 'd.cfg'), constants=dict(num, ZeroFix='FALSE'), invariants=['NumDesignOK'])
     r4 = tlc.run_tlc('ProcSort', cfg)
-    rep.notes['design_level_findings'] = dict(text_prefix_counterexample_found=bool(r2.violated or 'FALSE' in r2.out),
-                                              negative_zero_counterexample_found=bool(r4.violated or 'equal to FALSE' in r4.out))
+    refuted['negzero'] = bool(r4.violated or 'equal to FALSE' in r4.out)
+    if not all(refuted.values()):
+        raise tlc.MachineryError('non-vacuity: the pinned key designs must be refuted by TLC: %r' % refuted)
+    rep.notes['design_level_findings'] = dict(concat_refuted=refuted['concat'], bare_nul_separator_refuted=refuted['nulsep'],
+                                              pinned_zero_encoding_refuted=refuted['negzero'])
     return cases
 
 
@@ -109,16 +121,17 @@ def run_numeric(item):
         kinds = r.choice([['int'], ['float'], ['decimal'], ['int', 'float', 'decimal'], ['smallint'], ['smallint', 'float']])
         for i in range(n):
             v = numeric_value(r, r.choice(kinds))
-            if isinstance(v, float) and v == 0.0:
-                v = 0.0      # -0.0 is the listed deviation, probed separately
+            if isinstance(v, float) and v == 0.0 and r.random() < 0.5:
+                v = -0.0     # both zeros are one key (equal keys keep input order)
             rows.append(dict(id=i + 1, a=v))
         keys = [exact(x['a']) for x in rows]
         key = r.choice(['{a}', ['a']])
     elif mode == 'text':
         alpha = ['a', 'b', 'Z', '0', '9', ' ', u'é', u'中', u'\U0001F600', 'f', '~', '!']
+        alpha = alpha + ['\x00', '\x01', '1', 'a', 'a']
         L = r.randint(1, 4)
         for i in range(n):
-            rows.append(dict(id=i + 1, a=''.join(r.choice(alpha) for _ in range(L))))    # equal lengths: no prefix pairs
+            rows.append(dict(id=i + 1, a=''.join(r.choice(alpha) for _ in range(r.randint(0, L)))))    # any lengths: prefix pairs, NUL inside
         keys = [tuple(ord(ch) for ch in x['a']) for x in rows]
         key = r.choice(['{a}', ['a'], lambda row: row['a']])
     elif mode == 'multi':
@@ -191,7 +204,7 @@ def run():
     cases = model(rep, t)
     items = []
     for c in cases:
-        if t == 'quick' and r.random() > 0.08 and not (c['prefix'] and r.random() < 0.05):
+        if t == 'quick' and r.random() > 0.03 and not (c['prefix'] and r.random() < 0.03):
             continue
         v = dict(key=r.choice(['format', 'list', 'callable']), reverse=r.random() < 0.35, batch=r.choice([1, 2, 1000]))
         items.append(dict(case=c, variant=v))
@@ -255,7 +268,7 @@ def run():
                           category='trace/%s/%s' % (x['mode'], 'reverse' if x['reverse'] else 'asc'))
     rep.sample(dict(numeric_run=dict(ranks=good[0][1]['ranks'][:12], out=good[0][1]['out'][:12], reverse=good[0][1]['reverse'])))
     rep.assumptions += ['numeric keys are compared exactly (Fraction); text by code point; rows are read through datastream()',
-                        'random text keys of one table have equal length (no proper-prefix pairs: that case is enumerated exhaustively and is a listed finding)']
+                        'random text keys have any length 0..4 over an alphabet with NUL, SOH, digits, non-BMP characters (prefix pairs included)']
     return rep.finish()
 
 
